@@ -37,4 +37,26 @@ pub(crate) mod verif_kani {
         assert!(AddressFilter::Exact(a).matches(b) == (o == p));
         assert!(!AddressFilter::Exact(a).matches(v6));
     }
+
+    // every field is acceptable: isolates the structure of the parser (how many fields it demands) from number parsing
+    fn get_byte_any_field(_value: &str) -> Result<Option<u8>, BadIpv4Wildcard> { Ok(None) }
+
+    /// bounded: all byte strings of '.' and 'x' up to 4 bytes ("..." has four empty fields, "...." five), with `get_byte` stubbed to accept every field: the parser accepts
+    /// exactly the strings with four fields (three separators)
+    #[kani::proof]
+    #[kani::unwind(6)]
+    #[kani::stub(get_byte, get_byte_any_field)]
+    pub(crate) fn k_wildcard_field_count() {
+        const N: usize = 4;
+        let pick: [bool; N] = kani::any();
+        let len: usize = kani::any();
+        kani::assume(len <= N);
+        let mut bytes = [b'x'; N];
+        let mut dots = 0usize;
+        let mut i = 0;
+        while i < N { if pick[i] { bytes[i] = b'.'; if i < len { dots += 1; } } i += 1; }
+        let s = match std::str::from_utf8(&bytes[..len]) { Ok(s) => s, Err(_) => return };
+        let got: Result<WildcardIPv4, BadIpv4Wildcard> = s.parse();
+        assert!(got.is_ok() == (dots == 3));
+    }
 }
